@@ -7,6 +7,7 @@ from .common import *
 from ..linear import lin, same_lin, show, NonLinear
 
 EXPLANATION = (
+    "Re-based during the build (DESIGN.md 4.31): whole frames are assembled by abstract execution of Packet.append/assemble on a stated finite family of datagram lists and decoded independently; overfull packets are evaluated for rejection without trace (bounded). "
     "Decided: (R11.1) the layout constants of Packet equal struct.calcsize "
     "of the formats assemble() packs with (frame header, both datagram "
     "header formats, working counter), PACKET_INDEX is the offset of the "
